@@ -136,9 +136,10 @@ def _signed_width_too_small(l):
 def c_signed_type_too_narrow(f):
     """type_length() sizes the signed type from `minimum` and the unsigned bound from `maximum`:
     INTEGER (-128..128) becomes int8_t."""
-    if f['kind'] not in ENC_DEC + ('value-not-representable',):
+    if f['kind'] not in ENC_DEC + ('value-not-representable', 'v2-decode-failed', 'v2-decode-mismatch'):
         return False
-    return only(f, _signed_width_too_small, defaults=lambda m: True)
+    return only(f, _signed_width_too_small, defaults=lambda m: True, allow_cho_ext=True,
+                allow_adds=f['kind'].startswith('v2-'))
 
 
 def c_default_bit_string(f):
